@@ -86,14 +86,15 @@ def _scen_job(job):
 def send_events(r, n: int) -> List[Dict[str, Any]]:
     from bridge_env.network_bridge.socket_interface import MessageInterface
     evs = []
-    texts = ['', 'North passes', 'Start of board', 'x' * 300]
+    texts = ['', 'North passes', 'Start of board', 'x' * 300,
+             'Teams : N/S : "Ünïcødé" E/W : "Ελλάς"', 'West "東京" seated']
     for _ in range(n):
         texts.append(''.join(chr(r.randrange(32, 127)) for _ in range(r.randrange(0, 60))))
     for k, t in enumerate(texts):
         sock = ScriptedSocket([], True)
         sock.send_limit = [0, 1, 7, 16, 40][k % 5]     # short writes of the transport
         MessageInterface(sock).send_message(t)
-        evs.append({'tid': f'snd{k}', 'ev': 'send', 'text': list(t.encode('ascii')),
+        evs.append({'tid': f'snd{k}', 'ev': 'send', 'text': list(t.encode('utf-8')),
                     'bytes': list(sock.sent)})
     return evs
 
@@ -152,7 +153,11 @@ def run(pid: str, tier: str) -> int:
             jobs.append((f'x{len(jobs)}', j['chunks'], j['closed'], j['got'], j['final']))
     # seeded scenarios beyond the bound: realistic protocol lines
     lines = [b'North ready for teams', b'Teams : N/S : "a" E/W : "b"', b'', b'East plays 2C',
-             b'Board number 12. Dealer North. Neither vulnerable.', b'x\ny', b'End of session']
+             b'Board number 12. Dealer North. Neither vulnerable.', b'x\ny', b'End of session',
+             # team names are free text: several bytes per character on the wire
+             'Connecting "Équipe Zürich" as North using protocol version 18'.encode('utf-8'),
+             'Teams : N/S : "東京" E/W : "Łódź"'.encode('utf-8'),
+             'South "команда" seated'.encode('utf-8')]
     extra = []
     for _ in range(300 if quick else 20000):
         ms = [r.choice(lines) for _ in range(r.randrange(0, 5))]
